@@ -205,12 +205,12 @@ Theorem C13_chain_rounded_refuted :
     ~ value oab k == value oa k + value ob k.
 Proof. exact chain_rounded_not_additive. Qed.
 
-(* known finding C13-approval-split-empty: the split approval converter, alone or behind InvertedApprovalVotes, has no image for an
-   empty approval ballot - the run ends in ZeroDivisionError *)
-Theorem C13_approval_split_empty_refuted :
-  exists d, NoDup (keys d) /\ run_code (KConv (KApprovalSimple true)) (VF d) = CErr E_ZERODIV /\
-            run_code (KChain [KConv KInvApproval; KConv (KApprovalSimple true)]) (VF [(L [A 1; A 2], 2); (L [A 1], 1)]) = CErr E_ZERODIV.
-Proof. exact approval_split_empty_crashes. Qed.
+(* C13-approval-split-empty (repaired by a fix: commit): an empty approval ballot, alone or produced by InvertedApprovalVotes from a
+   voter who names every candidate, contributes nothing to the split approval counts (it used to end in ZeroDivisionError) *)
+Theorem C13_approval_split_empty :
+  run_code (KConv (KApprovalSimple true)) (VF [(L [], 3); (L [A 1; A 2], 1)]) = COk (VF [(A 1, 1 # 2); (A 2, 1 # 2)]) /\
+  run_code (KChain [KConv KInvApproval; KConv (KApprovalSimple true)]) (VF [(L [A 1; A 2], 2); (L [A 1], 1)]) = COk (VF [(A 2, 1)]).
+Proof. exact approval_split_empty_ok. Qed.
 
 (* ---- RoundedVotes: exact rounding of a rational count to d decimals (round_q), mode by mode *)
 Theorem C13_rounded_image : forall (m : rmode) (d : nat) (votes : fdict) (k : sx),
@@ -328,7 +328,7 @@ Print Assumptions C13_compose.
 Print Assumptions C13_chain_image.
 Print Assumptions C13_chain_additive.
 Print Assumptions C13_chain_rounded_refuted.
-Print Assumptions C13_approval_split_empty_refuted.
+Print Assumptions C13_approval_split_empty.
 Print Assumptions C13_rounded_image.
 Print Assumptions C13_rounded_on_grid.
 Print Assumptions C13_rounded_half_error.
